@@ -181,6 +181,9 @@ def stepDial (op impl : String) : StepOut := Id.run do
         | none => pure ()
       if (derTokens der).any (fun x => x.startsWith "fb:flight" || x.startsWith "fb:rflight") then
         tags := tags ++ ["dial:planned_flight"] ++ (if faults.contains 'c' then ["dial:planned_flight_lost"] else [])
+      if i ≥ 2 && (getKV a "sni").isSome then
+        tags := tags ++ ["dial:redial_other_host"] ++
+          (if (derTokens der).any (fun x => x.startsWith "fb:flight" || x.startsWith "fb:rflight") then ["dial:planned_flight_other_len"] else [])
       acc := { acc with spec := spec', out := acc.out ++ [{ sec with toks := t' }], tags := acc.tags ++ tags,
                         fails := acc.fails ++ fails }
     else
